@@ -219,6 +219,16 @@ def run(model, rep, tier):
         rep.check(len(sizes) == 1 and src(sizes[0].slice) == alg, "R-08.8", ut.qualname, where(ut, mk[0]), f"placeholder MAC sized by mac_sizes[{alg}], the algorithm of the template",
                   f"the TSIG template names algorithm `{alg}` but its placeholder MAC is sized by `{src(sizes[0].slice) if sizes else '?'}`: for a key of another algorithm the TSIG reserve and the padding "
                   "arithmetic use the wrong MAC length (TooBig escapes near the limit; the padded length is no multiple of the block)", stmt="placeholder-mac")
+    # the zero-reserve arm of _compute_tsig_reserve and the TSIG-writing arm of to_wire test the same attribute
+    ctn = model.func("dns.message.Message._compute_tsig_reserve").node
+    zero = [n for n in ast.walk(ctn) if isinstance(n, ast.If) and any(isinstance(b, ast.Return) and src(b.value) == "0" for b in n.body)]
+    wr = [n for n in ast.walk(model.func("dns.message.Message.to_wire").node) if isinstance(n, ast.If) and any(isinstance(c, ast.Call) and src(c.func).endswith("_write_tsig") for b in n.body for c in ast.walk(b))]
+    subj_r = {a[0] for n in zero for a in atoms(normalise_compare(n.test))}
+    subj_w = {a[0] for n in wr for a in atoms(normalise_compare(n.test))}
+    rep.check(len(zero) == 1 and len(wr) == 1 and subj_r == subj_w and len(subj_r) == 1, "R-08.8", "dns.message.Message._compute_tsig_reserve", where(model.func("dns.message.Message._compute_tsig_reserve"), zero[0] if zero else ctn),
+              f"no reserve exactly when no TSIG will be written (both arms test `{next(iter(subj_r), '?')}`)",
+              f"the reserve is skipped under {sorted(subj_r)} but the TSIG is written under {sorted(subj_w)}: a message whose TSIG came off the wire (tsig set, want_tsig_sign False) is re-rendered with 0 octets "
+              "reserved for it, so TooBig escapes near the limit and the padded length is off by the TSIG size", stmt="reserve-guard")
     mr = model.func("dns.message.make_response")
     ue = [c for c in ast.walk(mr.node) if isinstance(c, ast.Call) and isinstance(c.func, ast.Attribute) and c.func.attr == "use_edns"]
     uef = model.func("dns.message.Message.use_edns")
@@ -268,6 +278,8 @@ def run(model, rep, tier):
 
 
 WITNESSES = [
+    {"id": "c08-tsig-reserve-under-want-sign", "rule": "R-08.8", "file": "dns/message.py", "expect": "fires",
+     "old": "        if not self.tsig:\n            return 0", "new": "        if not self.want_tsig_sign:\n            return 0"},
     {"id": "c08-placeholder-mac-from-argument", "rule": "R-08.8", "file": "dns/message.py", "expect": "fires",
      "old": "            b\"\\x00\" * dns.tsig.mac_sizes[self.keyring.algorithm],", "new": "            b\"\\x00\" * dns.tsig.mac_sizes[algorithm],"},
     {"id": "c08-make-response-drops-request-payload", "rule": "R-08.8", "file": "dns/message.py", "expect": "fires",
